@@ -298,7 +298,20 @@ class Gen:
             ax[i] = r.uniform(-0.5, 0.5) if c in ("move", "rapid") and r.random() < 0.5 else r.uniform(0, 4)
         return {"call": c, "ax": ax}
 
+    REPEATABLE = {"move", "rapid", "move_absolute", "rapid_absolute", "set_axis", "probe", "auto_home", "set_feed_rate",
+                  "set_tool_power", "set_bed_temperature", "sleep", "set_fan_speed", "query", "comment", "set_plane"}
+
     def next(self):
+        # the previous call once more, verbatim (added after seed C01e: a "modal de-duplication" in write() dropped the second
+        # of two identical statements -- in relative mode that is a lost move)
+        last = getattr(self, "last", None)
+        if last is not None and last["call"] in self.REPEATABLE and self.r.random() < 0.07:
+            return dict(last)
+        d = self._next()
+        self.last = d
+        return d
+
+    def _next(self):
         r = self.r
         p = self.profile
         x = r.random()
